@@ -201,7 +201,7 @@ package proto
 //@ contract fillValues(values, keys) (out) props(C01,C06)
 //@   ensures len(out) == len(values) + len(keys) {length}
 //@ loop 0 (values, rangeindex)
-//@   invariant -1 <= rangeindex && rangeindex < len(keys) && len(values) == old(len(values)) + rangeindex + 1
+//@   invariant -1 <= rangeindex && rangeindex < len(keys) && len(values) == len(entry(values)) + rangeindex + 1
 
 //@ contract (c ColLowCardinality) Rows() (n) props(C01,C06,C16)
 //@   ensures n == len(c.Values)
